@@ -83,6 +83,13 @@ type Chan struct {
 
 type Poison struct{ Why string }
 
+// DataPtr is the result of unsafe.SliceData / unsafe.StringData: it can only be turned back
+// into a slice or string (unsafe.Slice / unsafe.String).
+type DataPtr struct {
+	A []Value
+	S *Str
+}
+
 // unsafe.Pointer values carry the original pointer.
 type UnsafePtr struct{ V Value }
 
